@@ -55,6 +55,33 @@ def gen_script(rnd, kind=None):
     return kind, s
 
 
+ENUM_ALPHABET = ["go depth 3", "go infinite", "go ponder depth 4", "go movetime 15", "stop", "ponderhit", "isready",
+                 "setoption name Threads value 3", "ucinewgame"]
+
+
+def enum_scripts(maxlen):
+    """Every command sequence of length 1..maxlen over ENUM_ALPHABET (each 'go' preceded by a position command): the short
+    orders a random generator meets only by luck (stop without search, ponderhit twice, go while pondering, ...)."""
+    import itertools
+    out = []
+    for n in range(1, maxlen + 1):
+        for seq in itertools.product(range(len(ENUM_ALPHABET)), repeat=n):
+            out.append(seq)
+    return out
+
+
+def enum_script(seq, rnd):
+    s = [(f"setoption name Threads value {rnd.choice([1, 2, 4])}", 0)]
+    for k in seq:
+        c = ENUM_ALPHABET[k]
+        dly = rnd.choice([0, 0, 0, 0.002, 0.01, 0.04])
+        if c.startswith("go"):
+            s.append(("position " + rnd.choice(FENS), dly))
+            dly = 0
+        s.append((c, dly))
+    return "enum", s
+
+
 OPTIONS = [("Threads", ["1", "2", "3", "0", "600", "abc"]), ("Hash", ["1", "4", "32", "0", "-5", "99999999", "x"]), ("MultiPV", ["1", "2", "5", "0", "999"]),
            ("Ponder", ["true", "false", "maybe"]), ("UCI_AnalyseMode", ["true", "false"]), ("OwnBook", ["true", "false"]), ("BookFile", ["", "/nonexistent.bin"]),
            ("UseNullMove", ["true", "false"]), ("AnalysisAgeHash", ["true", "false"]), ("Clear Hash", [""]), ("Strength", ["0", "500", "1000", "1001", "-1"]),
